@@ -27,7 +27,8 @@ static std::string ask(int fd, const std::string& line) {
     return n > 0 ? std::string(buf, static_cast<std::size_t>(n)) : std::string("(no answer)");
 }
 static std::string hex_id(char c) { return std::string(64, c); }
-int main() {
+int main(int argc, char** argv) {
+    const std::string scn = argc > 1 ? argv[1] : "reregister";
     std::signal(SIGPIPE, SIG_IGN);
     for (std::uint16_t port = 49910; port < 49930; ++port) {
         relay::EventLoop loop; relay::RelayServerConfig cfg; cfg.listen_host = "127.0.0.1"; cfg.listen_port = port;
@@ -40,6 +41,20 @@ int main() {
         const auto r1 = ask(t, "REGISTER " + hex_id('a') + "\n");
         const auto r2 = ask(c1, "CONNECT " + hex_id('b') + " " + hex_id('a') + "\n");
         if (r1.rfind("OK", 0) != 0 || r2.rfind("OK", 0) != 0) { std::printf("setup: REGISTER -> %s CONNECT -> %s\n", r1.c_str(), r2.c_str()); return finish(2); }
+        if (scn == "disconnect") {
+            // C1 completes the bridge (32 identity bytes), then goes away: T must be disconnected (EOF), not left hanging
+            const std::string ident(32, 'I');
+            (void)!::write(c1, ident.data(), ident.size());
+            const auto begin = ask(t, "");                         // "BEGIN <c1>\n" + identity
+            ::close(c1);
+            char buf[64]; ssize_t n = -2;
+            for (int i = 0; i < 3; ++i) { n = ::read(t, buf, sizeof buf); if (n <= 0) break; }
+            ::close(t); ::close(c2);
+            if (begin.rfind("BEGIN", 0) != 0) { std::printf("setup: no BEGIN (%.20s)\n", begin.c_str()); return finish(2); }
+            if (n != 0) { std::printf("REPRODUCED: the connector side of an established bridge disconnected but the other side was not disconnected (no EOF within the read timeout)\n"); return finish(1); }
+            std::printf("the partner of a disconnecting bridge side was disconnected\n");
+            return finish(0);
+        }
         const auto r3 = ask(t, "REGISTER " + hex_id('a') + "\n");
         const auto r4 = ask(c2, "CONNECT " + hex_id('c') + " " + hex_id('a') + "\n");
         ::close(t); ::close(c1); ::close(c2);
